@@ -70,7 +70,7 @@ struct EstCaps {
 #[derive(Clone, Debug)]
 enum Op {
     Est(EstCaps),
-    Announce(Family, u8, bool),
+    Announce(Family, u8, bool, u32),
     Eor(Family),
     Drop(Reason),
     ReconnectFail(FailStage),
@@ -87,7 +87,7 @@ fn fl(v: &[Family]) -> String {
 fn op_name(o: &Op) -> String {
     match o {
         Op::Est(c) => format!("establish(gr={{{}}}{},llgr={{{}}})", fl(&c.gr), if c.nbit { ",N" } else { "" }, fl(&c.llgr)),
-        Op::Announce(f, k, nl) => format!("announce({},n{}{})", fname(f), k, if *nl { ",NO_LLGR" } else { "" }),
+        Op::Announce(f, k, nl, pid) => format!("announce({},n{}{}{})", fname(f), k, if *nl { ",NO_LLGR" } else { "" }, if *pid != 0 { format!(",path-id {pid}") } else { String::new() }),
         Op::Eor(f) => format!("eor({})", fname(f)),
         Op::Drop(r) => format!("drop({:?})", r),
         Op::ReconnectFail(s) => format!("reconnect_fail({:?})", s),
@@ -118,6 +118,8 @@ pub(crate) struct LiveModel {
     local_gr: Vec<Family>,
     local_nbit: bool,
     local_llgr: Vec<Family>,
+    /// add-path receive configured for IPv4 (the peer advertises send)
+    addpath: bool,
     ops: Vec<Op>,
 }
 
@@ -130,7 +132,7 @@ pub(crate) struct Sys {
     neg_nbit: bool,
     neg_llgr: Vec<Family>,
     /// routes announced on the CURRENT session (family, k)
-    fresh: BTreeSet<(u32, u8)>,
+    fresh: BTreeSet<(u32, u8, u32)>,
     admin_down: bool,
     sessions: u32,
     broken: BTreeSet<String>,
@@ -142,8 +144,8 @@ fn fk(f: &Family) -> u32 {
 }
 
 struct RibView {
-    /// per family: (prefix, stale, llgr_stale, no_llgr)
-    paths: BTreeMap<u32, Vec<(String, bool, bool, bool)>>,
+    /// per family: (prefix, stale, llgr_stale, no_llgr, remote path id)
+    paths: BTreeMap<u32, Vec<(String, bool, bool, bool, u32)>>,
 }
 
 fn rib_view(tables: &TableHandle) -> RibView {
@@ -152,7 +154,7 @@ fn rib_view(tables: &TableHandle) -> RibView {
         let mut v = Vec::new();
         for d in tables.collect_paths(table::TableQuery::AdjIn(peer_ip()), f, vec![], true) {
             for p in &d.paths {
-                v.push((format!("{}", d.net), p.source.is_stale(), p.source.is_llgr_stale(), table::has_no_llgr_community(&p.attr)));
+                v.push((format!("{}", d.net), p.source.is_stale(), p.source.is_llgr_stale(), table::has_no_llgr_community(&p.attr), p.remote_path_id));
             }
         }
         v.sort();
@@ -195,7 +197,7 @@ impl LiveModel {
         p.passive = true;
         p.expected_remote_asn = PEER_ASN;
         p.holdtime = 90;
-        p.families = FAMS.iter().map(|f| (*f, 0u8)).collect();
+        p.families = FAMS.iter().map(|f| (*f, if self.addpath && *f == Family::IPV4 { 1u8 } else { 0u8 })).collect();
         if !self.local_gr.is_empty() {
             p.graceful_restart = Some(peer::GrPeerConfig { restart_time: 120, notification_enabled: self.local_nbit, families: self.local_gr.clone() });
         }
@@ -208,6 +210,9 @@ impl LiveModel {
     fn peer_caps(&self, c: &EstCaps) -> Vec<packet::Capability> {
         let mut caps: Vec<packet::Capability> = FAMS.iter().map(|f| packet::Capability::MultiProtocol(*f)).collect();
         caps.push(packet::Capability::FourOctetAsNumber(PEER_ASN));
+        if self.addpath {
+            caps.push(packet::Capability::AddPath(vec![(Family::IPV4, 2)]));
+        }
         if !c.gr.is_empty() || c.nbit {
             caps.push(packet::Capability::GracefulRestart { flags: if c.nbit { 0x4 } else { 0 }, restart_time: 120, families: c.gr.iter().map(|f| (*f, 0x80)).collect() });
         }
@@ -283,7 +288,7 @@ impl Model for LiveModel {
                     }
                 }
             }
-            Op::Announce(f, k, no_llgr) => {
+            Op::Announce(f, k, no_llgr, pid) => {
                 if !up {
                     return false;
                 }
@@ -303,7 +308,7 @@ impl Model for LiveModel {
                     Family::IPV6 => bgp::Nexthop::V6("2001:db8::1".parse().unwrap()),
                     _ => bgp::Nexthop::V4(Ipv4Addr::new(127, 0, 1, 1)),
                 };
-                let msg = bgp::Message::Update(bgp::Update::Reach { family: *f, entries: vec![packet::PathNlri::new(net(f, *k))], nexthop: Some(nexthop), attr: Arc::new(attrs) });
+                let msg = bgp::Message::Update(bgp::Update::Reach { family: *f, entries: vec![packet::PathNlri { nlri: net(f, *k), path_id: *pid }], nexthop: Some(nexthop), attr: Arc::new(attrs) });
                 let conn = sys.conn.as_mut().unwrap();
                 let ok = sys.rt.block_on(async { conn.send(&msg).await && conn.barrier().await });
                 if !ok {
@@ -311,7 +316,7 @@ impl Model for LiveModel {
                     let mut c = sys.conn.take().unwrap();
                     sys.rt.block_on(c.wait_end(true));
                 } else {
-                    sys.fresh.insert((fk(f), *k));
+                    sys.fresh.insert((fk(f), *k, *pid));
                 }
             }
             Op::Eor(f) => {
@@ -500,7 +505,19 @@ impl Model for LiveModel {
         for f in FAMS {
             let k = fk(&f);
             let paths = rib.paths.get(&k).cloned().unwrap_or_default();
-            let any_stale = paths.iter().any(|p| p.1 || p.2);
+            // routes that do not belong to the current session: every route while the peer is
+            // down, and everything not (re-)announced on the current session otherwise
+            let leftovers: Vec<_> = paths
+                .iter()
+                .filter(|p| !established || !sys.fresh.iter().any(|(fkk, kk, pid)| *fkk == k && format!("{}", net(&f, *kk)) == p.0 && *pid == p.4))
+                .collect();
+            if leftovers.iter().any(|p| !p.1 && !p.2) {
+                cur.push((
+                    format!("C10/kept-but-not-marked-stale/{kind}"),
+                    format!("{}: family {} keeps routes of an ended session that are not marked stale: {:?}", op_name(o), fname(&f), leftovers),
+                ));
+            }
+            let any_stale = paths.iter().any(|p| p.1 || p.2) || !leftovers.is_empty();
             let covered = cx.gr_timer_armed || cx.llgr_armed.contains(&k) || (established && cx.pending_eor.contains(&f));
             if any_stale && !covered {
                 cur.push((
@@ -517,10 +534,10 @@ impl Model for LiveModel {
             }
             // routes announced on the current session are never removed by a purge
             if established {
-                for (fkk, kk) in &sys.fresh {
+                for (fkk, kk, pid) in &sys.fresh {
                     if *fkk == k {
                         let n = format!("{}", net(&f, *kk));
-                        if !paths.iter().any(|p| p.0 == n && !p.1) {
+                        if !paths.iter().any(|p| p.0 == n && !p.1 && p.4 == *pid) {
                             cur.push((format!("C10/fresh-route-purged/{kind}"), format!("{}: {} announced on the current session is missing or stale: {:?}", op_name(o), n, paths)));
                         }
                     }
@@ -634,12 +651,17 @@ impl Model for LiveModel {
 
 fn live_models(thorough: bool) -> Vec<LiveModel> {
     let (v4, v6) = (Family::IPV4, Family::IPV6);
-    let mk = |name: &str, local_gr: Vec<Family>, local_nbit: bool, local_llgr: Vec<Family>, ests: Vec<EstCaps>, fams: Vec<Family>, reasons: Vec<Reason>| {
+    let mk = |name: &str, local_gr: Vec<Family>, local_nbit: bool, local_llgr: Vec<Family>, ests: Vec<EstCaps>, fams: Vec<Family>, reasons: Vec<Reason>, addpath: bool| {
         let mut ops: Vec<Op> = ests.into_iter().map(Op::Est).collect();
         for f in &fams {
-            ops.push(Op::Announce(*f, 0, false));
+            if addpath && *f == Family::IPV4 {
+                ops.push(Op::Announce(*f, 0, false, 1));
+                ops.push(Op::Announce(*f, 0, false, 2));
+            } else {
+                ops.push(Op::Announce(*f, 0, false, 0));
+            }
             if !local_llgr.is_empty() {
-                ops.push(Op::Announce(*f, 1, true));
+                ops.push(Op::Announce(*f, 1, true, if addpath && *f == Family::IPV4 { 1 } else { 0 }));
             }
             ops.push(Op::Eor(*f));
         }
@@ -654,7 +676,7 @@ fn live_models(thorough: bool) -> Vec<LiveModel> {
         }
         ops.push(Op::Disable);
         ops.push(Op::Enable);
-        LiveModel { name: name.into(), local_gr, local_nbit, local_llgr, ops }
+        LiveModel { name: name.into(), local_gr, local_nbit, local_llgr, addpath, ops }
     };
     let all_reasons = vec![Reason::TcpClose, Reason::NotifCease, Reason::NotifHardReset, Reason::NotifUpdateErr, Reason::LocalAdminShutdown, Reason::LocalUpdateError];
     let mut v = vec![
@@ -667,8 +689,19 @@ fn live_models(thorough: bool) -> Vec<LiveModel> {
             vec![EstCaps { gr: vec![v4], nbit: false, llgr: vec![] }, EstCaps { gr: vec![], nbit: false, llgr: vec![] }],
             vec![v4],
             vec![Reason::TcpClose, Reason::NotifCease, Reason::LocalAdminShutdown],
+            false,
         ),
     ];
+    v.push(mk(
+        "c10-gr-addpath",
+        vec![v4],
+        false,
+        vec![],
+        vec![EstCaps { gr: vec![v4], nbit: false, llgr: vec![] }],
+        vec![v4],
+        vec![Reason::TcpClose],
+        true,
+    ));
     if thorough {
         v.push(mk(
             "c10-gr-nbit-2fam",
@@ -678,6 +711,7 @@ fn live_models(thorough: bool) -> Vec<LiveModel> {
             vec![EstCaps { gr: vec![v4, v6], nbit: true, llgr: vec![] }, EstCaps { gr: vec![v4], nbit: false, llgr: vec![] }, EstCaps { gr: vec![], nbit: false, llgr: vec![] }],
             vec![v4, v6],
             all_reasons.clone(),
+            false,
         ));
         v.push(mk(
             "c10-gr-llgr",
@@ -687,6 +721,7 @@ fn live_models(thorough: bool) -> Vec<LiveModel> {
             vec![EstCaps { gr: vec![v4], nbit: true, llgr: vec![v4] }, EstCaps { gr: vec![], nbit: false, llgr: vec![v4] }, EstCaps { gr: vec![], nbit: false, llgr: vec![] }],
             vec![v4],
             all_reasons.clone(),
+            false,
         ));
         v.push(mk(
             "c10-gr2-llgr1",
@@ -696,6 +731,7 @@ fn live_models(thorough: bool) -> Vec<LiveModel> {
             vec![EstCaps { gr: vec![v4, v6], nbit: false, llgr: vec![v4] }, EstCaps { gr: vec![v6], nbit: false, llgr: vec![] }],
             vec![v4, v6],
             vec![Reason::TcpClose, Reason::NotifCease],
+            false,
         ));
     } else {
         v.push(mk(
@@ -703,9 +739,10 @@ fn live_models(thorough: bool) -> Vec<LiveModel> {
             vec![v4],
             true,
             vec![v4],
-            vec![EstCaps { gr: vec![v4], nbit: true, llgr: vec![v4] }],
+            vec![EstCaps { gr: vec![v4], nbit: true, llgr: vec![v4] }, EstCaps { gr: vec![], nbit: false, llgr: vec![v4] }],
             vec![v4],
             vec![Reason::TcpClose, Reason::NotifHardReset, Reason::LocalUpdateError],
+            false,
         ));
     }
     v
@@ -964,9 +1001,11 @@ pub(crate) fn run(replay: Option<&str>) -> Report {
         rep.caps_hit.push("c10-pure: no fixpoint within depth 30".into());
         rep.exhaustive = false;
     }
-    let depth = if thorough { 8 } else { 4 };
+    let depth = if thorough { 8 } else { 5 };
     for m in live_models(thorough) {
-        let cfg = BfsCfg { max_depth: depth, max_secs: if thorough { 2400 } else { 25 }, ..Default::default() };
+        // the add-path scenario (partial re-announcement before End-of-RIB) needs 7 steps
+        let d = if m.addpath { depth.max(7) } else { depth };
+        let cfg = BfsCfg { max_depth: d, max_secs: if thorough { 2400 } else { 25 }, ..Default::default() };
         bfs::bfs(&m, &cfg, &mut rep);
         if let Some(e) = take_machinery() {
             rep.machinery_error = Some(e);
